@@ -86,6 +86,8 @@ for name, code in sorted(statuses.items()):
                 viol_lines.append("VIOLATION property=%s replay=%s" % (prop, path))
             else:
                 broken.append("VERIF-BROKEN property=%s child %s crashed in harness code: %s (see %s)" % (prop, name, m.group(1), log))
+        elif "race detected during execution of test" in txt and "\nSUMMARY property=" in txt:
+            pass  # the race reports are collected from the race logs below
         else:
             if not any(b for b in broken if name in b) and "VERIF-BROKEN" not in txt:
                 broken.append("VERIF-BROKEN property=%s child %s exited %d without a verdict (see %s)" % (prop, name, code, log))
